@@ -494,7 +494,7 @@ func c03Typestate(c *core.Ctx, nt *types.Named) {
 					}
 				}
 			}
-			if core.PkgIs(ci.Static, "httpgrpc") && len(call.Call.Args) >= 4 && core.TypeStr(call.Call.Args[0].Type()) == "io.Writer" {
+			if isW, _ := httpFrameWriteCall(call); isW {
 				dataWrites = append(dataWrites, in)
 			}
 		})
@@ -659,7 +659,7 @@ func c03CallOptions(c *core.Ctx) {
 	for _, f := range sliceFields {
 		key := core.FuncName(collector) + ":" + f + ":append"
 		n, okAll := 0, true
-		core.Instrs(collector, func(in ssa.Instruction) {
+		core.InstrsDeep(collector, func(_ *ssa.Function, in ssa.Instruction) {
 			stI, ok := in.(*ssa.Store)
 			if !ok {
 				return
